@@ -34,6 +34,12 @@ CURATED = [
     ("{[#SP4]1[#SP4][#SP1r]1}.{#SP4=[O;0.5]([H;0.2])[C;0.1][$]C[$]O,#SP1r=[$]OC[$]CO}", False),
     ("{[#A][#B]}.{#A=[O;0.5]C[!],#B=[$][!][C;2.0]C}", True),
     ("{[#A]}.{#A=CCO}", False),
+    # molecules with several disconnected parts (salts, zero-order edges, free monomers)
+    ("{[#OHter][#PEO]|2[#OHter]}.{#PEO=[$]COC[$],#OHter=[$][O-].[Na+]}", False),
+    ("{[#A].[#A]}.{#A=CCO}", False),
+    ("{[#A][#B].[#C]}.{#A=CC[$],#B=[$]C[$],#C=[$]CO}", False),
+    ("{[#M][#M].[#M]}.{#M=[$]CC[$]O}", False),
+    ("{[#A]}.{#A=CC(=O)[O-].[Na+]}", False),
 ]
 
 
@@ -524,8 +530,15 @@ def run_history(scenario):
         except Exception as exc:  # noqa
             text = "%s: %s" % (type(exc).__name__, str(exc)[:100])
             engine_failure = isinstance(exc, ValueError) and "Conformer" in str(exc) and proxy.failures > 0
+            # RDKit's UFF refuses molecules with a zero-order bond (pysmiles keeps the '.' of a salt such as
+            # [O-].[Na+] as an order-0 edge): nothing is stored, the property is silent -> outcome, not verdict
+            zero_bond = any(float(d.get("order", 1) or 0) == 0 for _, _, d in aa.edges(data=True))
+            engine_refused = isinstance(exc, RuntimeError) and "bad bond order" in str(exc) and zero_bond and sc["engine"] == "real"
             if engine_failure:
                 event["out"] = "engine-failed"
+            elif engine_refused:
+                event["out"] = "engine-refused"
+                stats["engine_refused_zero_order_bond"] = stats.get("engine_refused_zero_order_bond", 0) + 1
             else:
                 event["out"] = "exc:" + text
                 if kind in ("roundtrip", "roundtrip_conf", "embed", "embed_cg", "forward", "translate_forward"):
@@ -563,8 +576,8 @@ def execute(scenario):
     for ev in sim["events"]:
         stats["op:" + ev["op"]] = stats.get("op:" + ev["op"], 0) + 1
         out = ev.get("out", "")
-        stats["outcome:" + (out if out in ("ok", "engine-failed", "skipped") else "raised")] = \
-            stats.get("outcome:" + (out if out in ("ok", "engine-failed", "skipped") else "raised"), 0) + 1
+        stats["outcome:" + (out if out in ("ok", "engine-failed", "engine-refused", "skipped") else "raised")] = \
+            stats.get("outcome:" + (out if out in ("ok", "engine-failed", "engine-refused", "skipped") else "raised"), 0) + 1
         if ev["op"] in ("repermute", "reweight"):
             pass
         if ev["op"] == "reseed":
